@@ -802,7 +802,7 @@ func runLedger(pid string, seed uint64, n int, out, stats string) {
 				cs := state.NewCheckState(g.dstate())
 				var chk transaction.Response
 				okc := nd.guard("CheckTx", func() {
-					chk = transaction.NewExecutorV3(transaction.GetDataV3).RunTx(cs, cur.raw, nil, h, newSyncMap(), 0, false)
+					chk = transaction.NewExecutorV3(transaction.GetDataV3).RunTx(cs, cur.raw, nil, checkTxHeight(nd), newSyncMap(), 0, false)
 				})
 				if !okc {
 					mon = append(mon, MonitorFailure{What: "C07: check-mode RunTx panicked: " + nd.Panics[len(nd.Panics)-1], Key: "c07-panic", Replay: where})
